@@ -13,16 +13,16 @@ import (
 type HostEdge uint8
 
 const (
-	hRun         HostEdge = iota // Runtime.RunProgram of global code that invokes frame 1
-	hCallable                    // goja.AssertFunction(f)(undefined)
-	hConstruct                   // goja.AssertConstructor(f)(nil)
-	hExportFn                    // ExportTo func() Value   (exceptions panic)
-	hExportFnErr                 // ExportTo func() (Value, error)
-	hTryGet                      // Try(func(){ obj.Get("p") })  getter = frame 1
-	hTryForOf                    // Try(func(){ ForOf(iterable) }) next() calls frame 1
-	hTryJSProxy                  // Try(func(){ proxy.Get("p") }) JS handler {get: frame 1}
-	hJob                         // Promise.resolve().then(frame 1): run from the job queue
-	hTryForOfStep                // Try(func(){ ForOf(iterable, step) }): the step callback calls frame 1 (Callable) and panics with the error
+	hRun          HostEdge = iota // Runtime.RunProgram of global code that invokes frame 1
+	hCallable                     // goja.AssertFunction(f)(undefined)
+	hConstruct                    // goja.AssertConstructor(f)(nil)
+	hExportFn                     // ExportTo func() Value   (exceptions panic)
+	hExportFnErr                  // ExportTo func() (Value, error)
+	hTryGet                       // Try(func(){ obj.Get("p") })  getter = frame 1
+	hTryForOf                     // Try(func(){ ForOf(iterable) }) next() calls frame 1
+	hTryJSProxy                   // Try(func(){ proxy.Get("p") }) JS handler {get: frame 1}
+	hJob                          // Promise.resolve().then(frame 1): run from the job queue
+	hTryForOfStep                 // Try(func(){ ForOf(iterable, step) }): the step callback calls frame 1 (Callable) and panics with the error
 	nHost
 )
 
